@@ -190,6 +190,17 @@ def check_case(elfi, zoo_name, names, X=None, seeds=(0,), draws=True, grad=True,
                     g1 = mp.gradient_logpdf(P[0] if k > 1 else P[0, 0])
                     if np.shape(g1) != (k,) or not np.allclose(g1, ga[0], rtol=1e-4, atol=1e-5):
                         return fail('shape', 'gradient_logpdf of one point has shape %r (dim %d)' % (np.shape(g1), k))
+                if zoo_name in SMOOTH:
+                    # the same kind of point given as python / numpy INTEGERS (a point with integer coordinates is an evaluation point)
+                    Pi = np.array([[1, 2, 3][:k], [3, -1, 2][:k]], dtype=int)
+                    gi = mp.gradient_logpdf(Pi)
+                    gai = analytic_grad(zoo_name, names, Pi.astype(float))
+                    g1 = mp.gradient_logpdf(Pi[0].tolist() if k > 1 else int(Pi[0, 0]))
+                    if np.shape(gi) != Pi.shape or not np.allclose(np.asarray(gi, dtype=float), gai, rtol=1e-4, atol=1e-5) or \
+                            not np.allclose(np.asarray(g1, dtype=float), gai[0], rtol=1e-4, atol=1e-5):
+                        d, nt_ = fail('N1-integer-typed-gradient-input', 'gradient_logpdf(%r) [integer-typed query] = %r, derivative of the log density = %r' % (
+                            Pi[0].tolist(), np.asarray(gi)[0].tolist(), gai[0].tolist()), int_query=Pi.tolist())
+                        return d, nt_
                 outside = X[zero]
                 if len(outside):
                     g0 = mp.gradient_logpdf(outside[:2])
@@ -276,3 +287,12 @@ def replay_input(inp):
         return False
     f, _ = check_case(elfi, inp['model'], inp['parameter_names'], X=inp['x'], seeds=(inp.get('seed', 0),))
     return f is None
+
+
+def find(signature, tier='quick', seed=0):
+    """first failing input with that signature (replay of a refuted obligation)"""
+    r = run(tier, seed)
+    for f in r['failures']:
+        if f['signature'] == signature:
+            return f
+    return None
